@@ -300,9 +300,10 @@ Rel(in) == LET L == Rawlen(in.path)
                 [] OTHER -> "-"
 Kind(in) == LET f == NamedOf(in.path.segs) IN IF f.t = "file" THEN f.kind ELSE f.t
 Hist(in) == IF in.prime = "" THEN "cold" ELSE IF in.prime = in.path.url THEN "warm" ELSE "cross"
+OutsideCase(in, out) == ~NoOutsideOut(out) \/ (NamedOf(in.path.segs).t \in {"outside", "escaped"} /\ ~IsError(out))
 Key(in, out) ==
   IF ~NoPanicOut(out) THEN "panic/" \o in.range.shape \o "/" \o Rel(in)
-  ELSE IF ~NoOutsideOut(out) \/ (NamedOf(in.path.segs).t \in {"outside", "escaped"} /\ ~IsError(out))
+  ELSE IF OutsideCase(in, out)
        THEN "outside-content/" \o in.path.cls       \* bytes, or (HEAD, empty range) existence and size, of an outside object
   ELSE LET what == IF out.status = 200 THEN "body200" ELSE IF out.status = 206 THEN "range206"
                    ELSE "status" \o N(out.status)
